@@ -201,3 +201,36 @@ Proof.
   assert (Hc : k = 1%nat \/ k = 2%nat \/ k = 3%nat) by lia.
   destruct Hc as [Hk1|[Hk1|Hk1]]; subst k; vm_compute; discriminate.
 Qed.
+
+Section ChachaProofs.
+  Variable gen : Type.
+  Variable next : gen -> Z -> gen * list Z.
+  Variable reseed : nat -> gen -> gen.
+
+  Definition crng_inv (r : crng gen) : Prop := 0 <= c_count r <= c_reseedInterval.
+
+  Lemma c_update_spec r :
+    crng_inv r ->
+    crng_inv (c_update gen reseed r) /\
+    (c_count r = c_reseedInterval -> c_update gen reseed r = mkCrng (S (c_epoch r)) (reseed (c_epoch r) (c_gen r)) 0) /\
+    (c_count r <> c_reseedInterval -> c_update gen reseed r = mkCrng (c_epoch r) (c_gen r) (c_count r + 1)).
+  Proof.
+    unfold crng_inv, c_update. intros Hc.
+    destruct (Z.ltb_spec (c_count r) c_reseedInterval) as [Hlt|Hge]; cbn; repeat split; intros; try lia; try reflexivity.
+    all: unfold c_reseedInterval in *; lia.
+  Qed.
+
+  Lemma c_read_inv n r : crng_inv r -> crng_inv (fst (c_read gen next reseed n r)).
+  Proof.
+    intros Hi. unfold c_read. destruct (n <=? 0); [exact Hi|].
+    destruct (c_update_spec r Hi) as [Hu _]. destruct (next (c_gen (c_update gen reseed r)) n) as [g o]. exact Hu.
+  Qed.
+
+  Lemma c_reads_inv ns : forall r, crng_inv r -> crng_inv (fst (c_reads gen next reseed ns r)).
+  Proof.
+    induction ns as [|n t IH]; intros r Hi; [exact Hi|].
+    cbn [c_reads]. pose proof (c_read_inv n r Hi) as H1.
+    destruct (c_read gen next reseed n r) as [r1 o]. cbn [fst] in H1.
+    specialize (IH r1 H1). destruct (c_reads gen next reseed t r1) as [r2 os]. exact IH.
+  Qed.
+End ChachaProofs.
